@@ -19,8 +19,8 @@ func baseCfg() chain.Config {
 		SlashDoubleStr: "0.05", SlashDowntimeStr: "0.01",
 	}
 	return chain.Config{
-		Vals: []chain.GenVal{{Key: 0, Stake: 2 * min}, {Key: 1, Stake: 3 * min}},
-		Accs: []chain.GenAcc{{Key: 0, Balance: 5 * min}, {Key: 1, Balance: 5 * min}, {Key: 2, Balance: 5 * min}, {Key: 3, Balance: 5 * min}, {Key: 4, Balance: 5 * min}},
+		Vals:      []chain.GenVal{{Key: 0, Stake: 2 * min}, {Key: 1, Stake: 3 * min}},
+		Accs:      []chain.GenAcc{{Key: 0, Balance: 5 * min}, {Key: 1, Balance: 5 * min}, {Key: 2, Balance: 5 * min}, {Key: 3, Balance: 5 * min}, {Key: 4, Balance: 5 * min}},
 		DAOTokens: 1000000, Owner: 4, DAOOwner: 4, Pos: &pp, Pruning: [2]int64{0, 1},
 	}
 }
